@@ -159,4 +159,5 @@ def load(config="all", repo=None, crate="loom", target_dir=None):
         _loaded[p] = Program(j, config=config, path=p)
         _loaded[p].inlined = inlined
         _loaded[p].renamed = j.get("renamed", {})
+        _loaded[p].desugared = j.get("desugared", {})
     return _loaded[p]
